@@ -261,6 +261,8 @@ class Explorer:
                     raise EngineError(f"class attribute {key}")
                 return g2
             if isinstance(o, tuple) and o[0] == "ext":
+                if ("value", f"{o[1]}.{attr}") in self.reg.stubs:
+                    return lambda run, ob, node: self.reg.stubs[("value", f"{o[1]}.{attr}")]
                 return lambda run, ob, node: Conc(("ext", f"{o[1]}.{attr}"))
             if isinstance(o, tuple) and o[0] == "obj":
                 # meta-level record with named attributes (produced by stubs)
@@ -886,7 +888,7 @@ class Explorer:
             finally:
                 run.spec -= 1
         for lab, ens in c.ensures.items():
-            run.oblige(f"post#{lab}", run.spec_bool(ens, pf), kind="post", note=ens if isinstance(ens, str) else lab)
+            run.oblige(f"post#{lab}", run.spec_bool(ens, pf), kind="post", note=ens if isinstance(ens, str) else lab, qf_only=getattr(ens, "_qf_only", False))
         self.frame_obligations(run)
 
     def exceptional_exit(self, run, fr, exc):
